@@ -232,6 +232,8 @@ func TestVerifC10Deletes(t *testing.T) {
 			return n
 		}
 		steps := 0
+		var lastSel vSel
+		haveLast := false
 		rt.Repeat(map[string]func(*rapid.T){
 			"write": func(rt *rapid.T) {
 				shard := rapid.SampledFrom(b.shards).Draw(rt, "shard")
@@ -260,6 +262,13 @@ func TestVerifC10Deletes(t *testing.T) {
 			},
 			"delete": func(rt *rapid.T) {
 				sel := b.vDrawSel(rt)
+				// the same time range as the previous delete with another selection: tombstones of equal ranges are
+				// batched when a file's tombstones are replayed at open
+				if haveLast && rapid.IntRange(0, 2).Draw(rt, "sameRangeAsPreviousDelete") == 0 {
+					sel.HasMin, sel.HasMax, sel.Min, sel.Max = lastSel.HasMin, lastSel.HasMax, lastSel.Min, lastSel.Max
+					cls["delete:same-range-as-previous"] = true
+				}
+				lastSel, haveLast = sel, true
 				n := doDelete(rt, sel)
 				note("delete", fmt.Sprintf("%v removed=%d", sel, n))
 			},
